@@ -92,7 +92,7 @@ StartTrace ==
                           /\ nd' = [n \in NodeIds(tr.scn) |-> InitNd]
                           /\ ho' = [h \in Hosts(tr.scn) |-> 0]
                           /\ env'.up \subseteq RemoteTargets(tr.scn)
-                          /\ env' = [up |-> env'.up, left |-> {}, fault |-> "none", stopSent |-> FALSE, resets |-> 0, torn |-> FALSE, procs |-> 0, cyc |-> 1]
+                          /\ env' = [up |-> env'.up, left |-> {}, fault |-> "none", stopSent |-> FALSE, resets |-> 0, torn |-> FALSE, procs |-> 0, cyc |-> 1, stale |-> 0]
                           /\ plan' = tr.plan
                           /\ tr.init.other = 0
             IN IF initOk THEN TRUE ELSE PrintT(<<"V", tr.id, 0, "L2", {}>>)
